@@ -94,13 +94,15 @@ Fixpoint hals_loop (tol : F) (fuel : nat) (first : bool) (err0 : F) (V : list (l
     if fltb Op (snd st) (fmul Op tol err0') then fst st else hals_loop tol f false err0' (fst st)
   end.
 
-(* V = clip(solve(UtU, UtM), 0); V = V * sum(UtM*V)/sum(UtU * V V^T).  `sol` is the recorded answer of
-   tl.solve.  Floating point gives NaN / inf when the denominator vanishes (V == 0): None. *)
-Definition hals_init (sol : list (list F)) : option (list (list F)) :=
+(* V = clip(solve(UtU, UtM), 0); normalization = sum(UtU * V V^T);
+   if normalization > 0: V = V * (sum(UtM*V) / normalization).   `sol` is the recorded answer of tl.solve.
+   (Repaired code, /repo 5f3eaf7: when the clipped solution is identically zero the rescaling is skipped;
+   before, 0/0 poisoned every entry with NaN.) *)
+Definition hals_init (sol : list (list F)) : list (list F) :=
   let V := mmap (fmax Op (f0 Op)) sol in
   let num := msum (mmap2 (fmul Op) UtM V) in
   let den := msum (mmap2 (fmul Op) UtU (matmul (length UtM) V (mtranspose n V))) in
-  if is0 den then None else Some (mmap (fun x => fmul Op x (fdiv Op num den)) V).
+  if fltb Op (f0 Op) den then mmap (fun x => fmul Op x (fdiv Op num den)) V else V.
 
 Definition zero_diag : bool := existsb (fun k => is0 (mget UtU k k)) (seq 0 (length UtM)).
 
@@ -109,15 +111,13 @@ End Hals.
 (* hals_nnls(UtM, UtU, V, n_iter_max, tol, sparsity_coefficient, ridge_coefficient, nonzero_rows, exact, epsilon).
    V0 = None: cold start, `sol` = answer of tl.solve(UtU, UtM).  `exact` replaces (n_iter_max, tol) by
    (50000, 1e-16): the caller of the model passes the replaced pair `big` (no large nat literals here).
-   Result: Err = raises ValueError, Ok None = NaN-poisoned, Ok (Some V). *)
+   Result: Err = raises ValueError, Ok V. *)
 Definition hals_nnls (UtM UtU : list (list F)) (n : nat) (V0 : option (list (list F))) (sol : list (list F))
-           (n_iter_max : nat) (tol : F) (o : hopts) : res (option (list (list F))) :=
+           (n_iter_max : nat) (tol : F) (o : hopts) : res (list (list F)) :=
   if h_nz o && zero_diag UtM UtU && negb (Nat.eqb n_iter_max 0) then Err
   else
-    match (match V0 with Some V => Some V | None => hals_init UtM UtU n sol end) with
-    | None => Ok None
-    | Some V => Ok (Some (hals_loop UtM UtU n o tol n_iter_max true (f0 Op) V))
-    end.
+    let V := match V0 with Some V => V | None => hals_init UtM UtU n sol end in
+    Ok (hals_loop UtM UtU n o tol n_iter_max true (f0 Op) V).
 
 (* KKT residuals of a point (used by the correspondence and stated in the theorems):
    g = UtU V - UtM + l1 + 2 l2 V *)
@@ -207,18 +207,28 @@ Definition solve_scatter (passive : list bool) : option (list F) :=
   match solve (sub_block passive) (select passive Utm) with Some ps => Some (scatter passive ps) | None => None end.
 
 (* the `for i in range(len(passive_set))` loop; returns None when a Python exception escapes
-   (min of an empty selection, LAPACK error outside the try) *)
+   (min of an empty selection, LAPACK error outside the try).
+   blocking = passive_set & (support_vec <= 0); ratio = x[blocking] / (x[blocking] - s[blocking]); alpha = min(ratio);
+   x = x + alpha (s - x); x[blocking] = where(ratio <= alpha, 0, x[blocking])
+   (repaired code, /repo dadc3ff: the coordinates attaining alpha are put exactly on the bound; before, rounding
+   of the step -- `rnd` -- could leave them positive and passive) *)
+Fixpoint map3 {A B C D} (f : A -> B -> C -> D) (a : list A) (b : list B) (c : list C) : list D :=
+  match a, b, c with x :: a', y :: b', z :: c' => f x y z :: map3 f a' b' c' | _, _, _ => [] end.
+Definition ratio (a b : F) : F := fdiv Op a (fsub Op a b).
+Definition blocking (passive : list bool) (s : list F) : list bool :=
+  map (fun pb => fst pb && fleb Op (snd pb) (f0 Op)) (combine passive s).
+Definition as_step (alpha : F) (passive : list bool) (x s : list F) : list F :=
+  map3 (fun (p : bool) a b =>
+          if p && fleb Op b (f0 Op) && fleb Op (ratio a b) alpha then f0 Op
+          else rnd (fadd Op a (fmul Op alpha (fsub Op b a)))) passive x s.
 Fixpoint inner (fuel : nat) (x s : list F) (passive : list bool) : option (list F * list F * list bool) :=
   match fuel with
   | O => Some (x, s, passive)
   | S f =>
-    let xp := select passive x in
-    let sp_ := select passive s in
-    let neg := map (fun v => fleb Op v (f0 Op)) sp_ in
-    match vmin' (map2 (fun a b => fdiv Op a (fsub Op a b)) (select neg xp) (select neg sp_)) with
+    match vmin' (select (blocking passive s) (map2 ratio x s)) with
     | None => None
     | Some alpha =>
-      let x' := map2 (fun a b => rnd (fadd Op a (fmul Op alpha (fsub Op b a)))) x s in
+      let x' := as_step alpha passive x s in
       let passive' := posmask x' in
       match solve_scatter passive' with
       | None => None
